@@ -214,11 +214,14 @@ def parse_model(ints):
         return {"status": "rej", "code": rd.z()}
     if tag in (3, 5):
         return {"status": "panic", "panic": (rd.z(), rd.z())}
+    flags = {"K_summary_buy_in_window": bool(rd.z()), "K_annual_sell_in_window": bool(rd.z()),
+             "K_zero_balance_acb": bool(rd.z())}
+    rt_ok = bool(rd.z())
     n = rd.z()
     sums = [parse_tx_ints(rd) for _ in range(n)]
     k = rd.z()
     rest = ints[rd.i:]
-    return {"status": "ok", "summary": sums, "rerun": core.parse_model([1] + rest[:k]),
+    return {"status": "ok", "summary": sums, "classes": sorted(c for c, v in flags.items() if v), "roundtrip_ok": rt_ok, "rerun": core.parse_model([1] + rest[:k]),
             "full": core.parse_model([1] + rest[k:])}
 
 
@@ -428,6 +431,9 @@ def check_cases(res, ctx, cases, label):
         cls = known_classes(isum, full, rows, cut, annual)
         for c in cls:
             st["in-class-" + c] += 1
+        if m["status"] == "ok" and not d and sorted(cls) != m["classes"]:
+            # the class predicates of Properties/C10.v (evaluated by the model) and of this check must agree
+            ctx["diffs"].append(("class predicates: Rocq %s, check %s" % (m["classes"], sorted(cls)), h))
         if bad:
             st["roundtrip-differs"] += 1
             if cls:
@@ -495,7 +501,7 @@ def run(res, ctx):
             res.known(k["what"])
             st["known-finding-witness-still-fails"] += 1
     check_cases(res, ctx, corpus(), "corpus")
-    n_b = 500 if tier == "quick" else 8000
+    n_b = 1500 if tier == "quick" else 12000
     cases = []
     for _ in range(n_b):
         rows, cuts = gen_boundary(rng, st)
@@ -503,14 +509,14 @@ def run(res, ctx):
             cases.append((rows, c, rng.random() < 0.4))
     check_cases(res, ctx, cases, "boundary")
     cases = []
-    for _ in range(200 if tier == "quick" else 3000):
+    for _ in range(500 if tier == "quick" else 4000):
         rows, cuts = gen_year_boundary(rng, st)
         for c in cuts:
             cases.append((rows, c, rng.random() < 0.8))
     check_cases(res, ctx, cases, "year-boundary")
     # random histories, the date swept over every row boundary, both modes
     cases = []
-    for _ in range(60 if tier == "quick" else 1200):
+    for _ in range(150 if tier == "quick" else 1500):
         rows = gen.gen_history(rng, n_rows=rng.randint(3, 12), p_invalid=0.0, p_sfl_spec=0.0,
                                afs=rng.sample(["", "Spouse", "(R)", "B"], rng.choice([1, 2, 3])),
                                window_focus=rng.random() < 0.7, terminating_only=True)
